@@ -14,7 +14,7 @@ import (
 // ---------- schema for URL suites: small name alphabet, prefix-related relationship names ----------
 
 var urlRelNames = []string{"many", "manys", "one", "r", "r.x", "a"}
-var urlAttrNames = []string{"name", "n", "age", "b", "c"}
+var urlAttrNames = []string{"name", "n", "age", "b", "c", "ISBN", "Name"} // mixed case: bytewise order is not alphabetical order
 
 func genURLSchema(r *Rng, o *Out) *jsonapi.Schema {
 	s := &jsonapi.Schema{}
@@ -48,7 +48,7 @@ func genURLSchema(r *Rng, o *Out) *jsonapi.Schema {
 
 // ---------- raw URL grammar ----------
 
-var idFrags = []string{"1", "abc", ".", "..", "%2E%2E", "...", "a..b", "a%3Fb", "a%2Fb", "x%20y", "%C3%A9", "a+b", "meta", "relationships", "a%26b", "a%23b", "%25"}
+var idFrags = []string{"1", "abc", ".", "..", "%2E%2E", "...", "a..b", "a%3Fb", "a%2Fb", "x%20y", "%C3%A9", "a+b", "meta", "relationships", "a%26b", "a%23b", "%25", "a%252Fb", "%2541", "%25zz"} // the last three: IDs that are themselves percent-encoded text
 
 func genPath(r *Rng, s *jsonapi.Schema, o *Out) string {
 	tn := func() string {
@@ -114,7 +114,7 @@ func genQuery(r *Rng, s *jsonapi.Schema, o *Out) []string {
 	}
 	fieldPool := append(append([]string{"id"}, urlAttrNames...), urlRelNames...)
 	incPool := []string{"many", "manys", "one", "r", "many.one", "many.many", "one.r", "r.x", "many.nope", "nope", "many.one.many", ".", "many..one", "a"}
-	sortPool := []string{"id", "-id", "name", "-name", "n", "age", "-age", "b", "-", "nope", "-nope", "many", "--name", "--id", "---age", "--", "name-", "-n"}
+	sortPool := []string{"id", "-id", "name", "-name", "n", "age", "-age", "b", "-", "nope", "-nope", "many", "--name", "--id", "---age", "--", "name-", "-n", "%20", "+", "%09", "%20name", "ISBN", "-Name"}
 	for k := r.IntN(6); k > 0; k-- {
 		switch r.IntN(8) {
 		case 0, 1:
